@@ -119,6 +119,15 @@ fn placements(spin: &[String]) -> Vec<(&'static str, Vec<String>, Vec<String>)> 
         ("fold", "(1, 2).fold(0, |acc, fv| pcb(fv))"),
         ("sort-key", "[3, 1, 2].sort(pcb)"),
         ("map-update", "{a: 1}.update('a', pcb)"),
+        ("zip-second-input", "(1, 2).zip((1, 2).each(pcb)).to_tuple()"),
+        ("chain-second-input", "(1, 2).chain((1, 2).each(pcb)).to_tuple()"),
+        ("flatten-inner", "((1, 2).each(pcb), (3,)).flatten().to_tuple()"),
+        ("intersperse-fn", "(1, 2).intersperse(|| pcb(0)).to_tuple()"),
+        ("enumerate-each", "(1, 2).each(pcb).enumerate().to_tuple()"),
+        ("peekable-each", "(1, 2).each(pcb).peekable().peek()"),
+        ("windows-each", "(1, 2, 3).each(pcb).windows(2).to_tuple()"),
+        ("cycle-each", "(1, 2).each(pcb).cycle().take(3).to_tuple()"),
+        ("reversed-each", "(1, 2).each(pcb).reversed().to_tuple()"),
         ("map-sort-key", "{a: 1, b: 2}.sort(|k, v| pcb(v))"),
         ("tuple-sort-copy-key", "(3, 1, 2).sort_copy(pcb)"),
         ("min-key", "(1, 2).min(pcb)"),
@@ -405,7 +414,7 @@ pub fn run(args: &Args) -> i32 {
     report.cov("max_timeout_time_over_limit", max_ratio);
     report.cov("terminating_controls", n_controls);
     report.cov("exhaustive", true);
-    report.cov("rule", format!("{} spin shapes x 44 placements x 5 try/catch wrappings x limits {:?} ms; virtual clock: 100 ns per executed instruction (hook H3), tick budget 10 x limit; oracle: ErrorKind::Timeout before virtual time limit x {:.1}, no catch block output, H1 state clean and a probe script runs afterwards; plus terminating controls under 4 limits vs no limit. distinct_nontrivial = distinct (outcome, time/limit decile, spin, top-level?)", spins().len(), limits, 1.0 + slack));
+    report.cov("rule", format!("{} spin shapes x 53 placements x 5 try/catch wrappings x limits {:?} ms; virtual clock: 100 ns per executed instruction (hook H3), tick budget 10 x limit; oracle: ErrorKind::Timeout before virtual time limit x {:.1}, no catch block output, H1 state clean and a probe script runs afterwards; plus terminating controls under 4 limits vs no limit. distinct_nontrivial = distinct (outcome, time/limit decile, spin, top-level?)", spins().len(), limits, 1.0 + slack));
     report.cov("samples", json!([cases[0].3, cases[n_cases / 2].3, cases[n_cases - 1].3]));
     report.assume("virtual time removes only the dependence on host speed: the runtime's own deadline / adaptive interval logic runs unmodified on the virtual Instant; real-time slack on a loaded host is not decided");
     report.assume("spins that stay inside one native call are excluded by the property");
@@ -481,9 +490,8 @@ fn classify(spin: &str, placement: &str, wrapping: &str, class: &str) -> Option<
     }
     // unbounded recursion where every level is a nested VM entry: no entry ever reaches its own
     // deadline, the native stack is exhausted first
-    if spin == "display-metakey-recursion" && matches!(class, "crash" | "never" | "late")
-    {
-        return Some("timeout-blind-to-time-in-nested-entries".into());
+    if spin == "display-metakey-recursion" && matches!(class, "crash" | "never" | "late") {
+        return Some("native-stack-exhausted-before-limit".into());
     }
     None
 }
